@@ -23,6 +23,7 @@ FUNCS = [
     ('c10_variant_numeric', 'value.variant_numeric_cases', 'variant with u32 / u64 / string cases, numeric cases', FULL),
     ('c10_f32_in_wide_variant_import', 'value.f32_in_wide_variant_import', 'variant { f32, u64, f64 } passed to and returned from an IMPORT (F32ToI64 / F64ToI64 bitcasts in the joined slot), every bit pattern', FULL.replace('export direction', 'import direction')),
     ('c10_f32_in_wide_variant_export', 'value.f32_in_wide_variant_export', 'variant { f32, u64, f64 } through an export (I64ToF32 / I64ToF64), every bit pattern', FULL),
+    ('c10_import_string_and_list_any_length', 'value.import_string_and_list_any_length', 'string and list<u32> passed to an import: (pointer, length) unchanged for EVERY length', FULL.replace('export direction', 'import direction')),
     ('c10_c11_variant_string', 'value.variant_string_case', 'variant, string case', HEAP),
     ('c10_c11_string', 'value.string', 'string', HEAP),
     ('c10_c11_list_u32', 'value.list_u32', 'list<u32>', HEAP),
